@@ -23,6 +23,7 @@
 #include <list>
 #include <vector>
 
+#ifndef API_PROBE_SMOKE_ONLY
 namespace probe {
 namespace {
 
@@ -34,10 +35,6 @@ using yaclib::Promise;
 using yaclib::Result;
 using yaclib::StopError;
 using yaclib::StopTag;
-
-IExecutor& Exec() {
-  return MakeInline();
-}
 
 // ---- async/contract.hpp, async/promise.hpp ----------------------------------------------------------------------------
 template <typename V, typename E>
@@ -391,8 +388,11 @@ static_assert(CanWait<Future<int>>::value && !CanWait<const Future<int>>::value,
 
 }  // namespace
 }  // namespace probe
+#endif  // API_PROBE_SMOKE_ONLY
 
 int api_probe_async(int argc) {
+  (void)argc;
+#ifndef API_PROBE_SMOKE_ONLY
   using namespace probe;
   if (argc > 1000) {
     ContractsMisc();
@@ -405,6 +405,7 @@ int api_probe_async(int argc) {
     WaitsAllV<StopError>();
     WaitEvents();
   }
+#endif
   // smoke: a pipeline over the inline and the manual executor
   yaclib::ManualExecutor manual;
   int seen = 0;
